@@ -65,12 +65,37 @@ export class SymTA {             // typed array (u8 / u32) whose cells may be sy
   [Symbol.iterator]() { let i = 0; const self = this; return { next() { return i < self.length ? { value: self.load(i++), done: false } : { value: undefined, done: true }; } }; }
 }
 
+// ------------------------------------------------------------------------------------------------ value-level symbols
+export class NeedsRefinement extends Error { constructor(path, options) { super('refine ' + path); this.path = path; this.options = options; } }
+export class Mutation extends Error {}
+let boxCounter = 0;
+export class SymNumV {            // a JS number of unknown value (finite real, NaN, +Infinity, -Infinity); -0 is identified with 0
+  constructor(path) { this.id = boxCounter++; this.path = path; }
+  valueOf() { throw new Unmodelled('implicit conversion of a symbolic number (un-instrumented operator)'); }
+  toString() { throw new Unmodelled('implicit string conversion of a symbolic number'); }
+  toJSON() { return `\u27e8num#${this.id}\u27e9`; }
+}
+export class SymStrV {            // a JS string of unknown content
+  constructor(path) { this.id = boxCounter++; this.path = path; }
+  valueOf() { throw new Unmodelled('implicit conversion of a symbolic string (un-instrumented operator)'); }
+  toString() { throw new Unmodelled('implicit string conversion of a symbolic string'); }
+  toJSON() { return `\u27e8str#${this.id}\u27e9`; }
+}
+const WILDCARD = Symbol('wildcard');
+const LAZYOBJ = Symbol('lazyobj');
+function isWildcard(x) { return (typeof x === 'function' || typeof x === 'object') && x !== null && wildcards.has(x); }
+const wildcards = new WeakSet();
+const lazyObjs = new WeakMap();     // proxy -> {path, target}
+function isBox(x) { return x instanceof SymNumV || x instanceof SymStrV; }
+function isNative(f) { try { return typeof f === 'function' && /\[native code\]/.test(Function.prototype.toString.call(f)); } catch (e) { return false; } }
+
 // ------------------------------------------------------------------------------------------------ engine state
 const st = {
   nodes: [], memo: new Map(), inputs: [],
   prefix: [], decisions: [], pos: 0, stack: [], pc: [],
   symbolicTypedArrays: false,
-  stats: { queries: 0, solver_ms: 0, paths: 0, infeasible: 0 },
+  stats: { queries: 0, solver_ms: 0, paths: 0, infeasible: 0, cache_hits: 0 },
+  shape: new Map(), kinds: [], keyPool: [], maxLen: 2, decls: new Map(), qcache: new Map(), mutated: false, z3: 'z3',
 };
 
 function big(x) { return BigInt(x); }
@@ -265,3 +290,616 @@ function nativeUn(op, a) {
   }
 }
 globalThis.$S = $S;
+
+// =====================================================================================================================
+// value-level dynamic symbolic execution: wildcards refined on demand (restart), lazily keyed objects, boxed symbolic
+// numbers / strings whose comparisons fork with z3 deciding feasibility.
+// =====================================================================================================================
+function smtStr(x) {
+  let out = '"';
+  for (const ch of x) {
+    const c = ch.codePointAt(0);
+    if (ch === '"') out += '""';
+    else if (c >= 32 && c < 127 && ch !== '\\') out += ch;
+    else out += '\\u{' + c.toString(16) + '}';
+  }
+  return out + '"';
+}
+function smtReal(c) {
+  if (Number.isInteger(c)) return c < 0 ? `(- ${BigInt(-c)}.0)` : `${BigInt(c)}.0`;
+  const t = String(Math.abs(c));
+  if (/e/i.test(t)) throw new Unmodelled('number literal in exponent form');
+  return c < 0 ? `(- ${t})` : t;
+}
+function declNum(b) { st.decls.set('n' + b.id, `(declare-const n${b.id} Real)(declare-const c${b.id} Int)(assert (and (>= c${b.id} 0) (<= c${b.id} 3)))`); }
+function declStr(b) { st.decls.set('s' + b.id, `(declare-const s${b.id} String)`); }
+
+// equality of a box with a concrete value / another box, as an SMT formula (strict equality semantics); null = never equal
+function eqFormula(a, b) {
+  if (a instanceof SymNumV) {
+    declNum(a);
+    if (b instanceof SymNumV) { declNum(b); return a === b ? `(not (= c${a.id} 1))` : `(and (= c${a.id} c${b.id}) (not (= c${a.id} 1)) (or (not (= c${a.id} 0)) (= n${a.id} n${b.id})))`; }
+    if (typeof b !== 'number') return null;
+    if (Number.isNaN(b)) return null;
+    if (b === Infinity) return `(= c${a.id} 2)`;
+    if (b === -Infinity) return `(= c${a.id} 3)`;
+    return `(and (= c${a.id} 0) (= n${a.id} ${smtReal(b)}))`;
+  }
+  if (a instanceof SymStrV) {
+    declStr(a);
+    if (b instanceof SymStrV) { declStr(b); return a === b ? 'true' : `(= s${a.id} s${b.id})`; }
+    if (typeof b !== 'string') return null;
+    return `(= s${a.id} ${smtStr(b)})`;
+  }
+  if (isBox(b)) return eqFormula(b, a);
+  return null;
+}
+
+function solve(extra) {
+  const body = [...st.decls.values()].join('\n') + '\n' + st.pc.concat(extra ? [extra] : []).map((c) => `(assert ${c})`).join('\n');
+  const hit = st.qcache.get(body);
+  if (hit !== undefined) { st.stats.cache_hits++; return hit; }
+  const t0 = Date.now();
+  const r = spawnSync(st.z3, ['-in', '-T:20'], { input: body + '\n(check-sat)\n', encoding: 'utf8' });
+  st.stats.queries++;
+  st.stats.solver_ms += Date.now() - t0;
+  const out = (r.stdout || '').trim();
+  if (/\(error/.test(out) || r.status === null) throw new Unmodelled('solver error: ' + out.slice(0, 200));
+  const res = out.startsWith('sat') ? true : out.startsWith('unsat') ? false : null;
+  if (res === null) throw new Unmodelled('solver answered ' + out.slice(0, 40));
+  st.qcache.set(body, res);
+  return res;
+}
+function getModel() {
+  const consts = [...st.decls.keys()];
+  const body = [...st.decls.values()].join('\n') + '\n' + st.pc.map((c) => `(assert ${c})`).join('\n') + '\n(check-sat)\n' +
+    consts.map((k) => (k[0] === 'n' ? `(eval ${k})(eval c${k.slice(1)})` : `(eval ${k})`)).join('\n') + '\n';
+  const r = spawnSync(st.z3, ['-in', '-T:20', 'pp.decimal=true', 'pp.decimal_precision=30'], { input: body, encoding: 'utf8' });
+  const lines = (r.stdout || '').split('\n').filter((l) => l.length);
+  if (lines[0] !== 'sat') return null;
+  const model = {};
+  let i = 1;
+  for (const k of consts) {
+    if (k[0] === 'n') {
+      let v = lines[i++].replace(/[()?\s]/g, ' ').trim();
+      let neg = false;
+      if (v.startsWith('-')) { neg = true; v = v.slice(1).trim(); }
+      const cls = parseInt(lines[i++].replace(/[()\s]/g, ''), 10);
+      let num = v.includes('/') ? Number(v.split('/')[0]) / Number(v.split('/')[1]) : Number(v);
+      if (neg) num = -num;
+      model[k] = cls === 1 ? NaN : cls === 2 ? Infinity : cls === 3 ? -Infinity : num;
+    } else {
+      let v = lines[i++];
+      v = v.slice(1, -1).replace(/""/g, '"').replace(/\\u\{([0-9a-fA-F]+)\}/g, (_, h) => String.fromCodePoint(parseInt(h, 16))).replace(/\\x([0-9a-fA-F]{2})/g, (_, h) => String.fromCharCode(parseInt(h, 16)));
+      model[k] = v;
+    }
+  }
+  return model;
+}
+
+// positional decision with feasibility: alternatives are SMT formulas (or null = unconstrained)
+function decide(alternatives) {
+  const n = alternatives.length;
+  const replay = st.pos < st.prefix.length;
+  let k;
+  if (replay) k = st.prefix[st.pos];
+  else {
+    k = 0;
+    for (let alt = n - 1; alt > 0; alt--) st.stack.push({ shape: new Map(st.shape), prefix: st.decisions.slice(0, st.pos).concat([alt]) });
+  }
+  st.decisions.push(k);
+  st.pos++;
+  const f = alternatives[k];
+  if (f !== null && f !== 'true') {
+    if (f === 'false') throw new Infeasible();
+    st.pc.push(f);
+    if (!replay || st.pos === st.prefix.length) { if (!solve()) throw new Infeasible(); }
+  }
+  return k;
+}
+function forkBool(formula) {           // returns a concrete boolean, forking on the formula
+  if (formula === null || formula === 'false') return false;
+  if (formula === 'true') return true;
+  return decide([formula, `(not ${formula})`]) === 0;
+}
+
+// ---- JS regex -> SMT-LIB regular expression (subset: literals, escapes, classes, groups, alternation, quantifiers, anchors)
+function regexToSmt(re) {
+  const src = re.source;
+  if (re.flags.replace(/[gsu]/g, '') !== '') throw new Unmodelled('regex flags ' + re.flags);
+  let i = 0;
+  const ALL = 're.all', ANYCH = 're.allchar';
+  function range(a, b) { return `(re.range ${smtStr(a)} ${smtStr(b)})`; }
+  const DIGIT = range('0', '9');
+  const WORD = `(re.union ${range('a', 'z')} ${range('A', 'Z')} ${DIGIT} (str.to_re "_"))`;
+  const SPACE = `(re.union (str.to_re " ") (str.to_re ${smtStr('\t')}) (str.to_re ${smtStr('\n')}) (str.to_re ${smtStr('\r')}))`;
+  function cls(ch) {
+    switch (ch) {
+      case 'd': return DIGIT; case 'w': return WORD; case 's': return SPACE;
+      case 'D': return `(re.diff ${ANYCH} ${DIGIT})`; case 'W': return `(re.diff ${ANYCH} ${WORD})`; case 'S': return `(re.diff ${ANYCH} ${SPACE})`;
+      case 'n': return `(str.to_re ${smtStr('\n')})`; case 't': return `(str.to_re ${smtStr('\t')})`; case 'r': return `(str.to_re ${smtStr('\r')})`;
+      default: if (/[a-zA-Z0-9]/.test(ch)) throw new Unmodelled('regex escape \\' + ch); return `(str.to_re ${smtStr(ch)})`;
+    }
+  }
+  function alt() {
+    const parts = [seq()];
+    while (src[i] === '|') { i++; parts.push(seq()); }
+    return parts.length === 1 ? parts[0] : `(re.union ${parts.join(' ')})`;
+  }
+  function seq() {
+    const items = [];
+    while (i < src.length && src[i] !== '|' && src[i] !== ')') items.push(quant());
+    if (items.length === 0) return '(str.to_re "")';
+    return items.length === 1 ? items[0] : `(re.++ ${items.join(' ')})`;
+  }
+  function quant() {
+    let a = atom();
+    for (;;) {
+      const c = src[i];
+      if (c === '*') { a = `(re.* ${a})`; i++; } else if (c === '+') { a = `(re.+ ${a})`; i++; } else if (c === '?') { a = `(re.opt ${a})`; i++; } else if (c === '{') {
+        const m = /^\{(\d+)(,(\d*))?\}/.exec(src.slice(i));
+        if (!m) throw new Unmodelled('regex quantifier');
+        i += m[0].length;
+        const lo = Number(m[1]);
+        if (m[2] === undefined) a = `((_ re.loop ${lo} ${lo}) ${a})`;
+        else if (m[3] === '') a = `(re.++ ((_ re.loop ${lo} ${lo}) ${a}) (re.* ${a}))`;
+        else a = `((_ re.loop ${lo} ${Number(m[3])}) ${a})`;
+      } else break;
+      if (src[i] === '?') throw new Unmodelled('lazy quantifier');
+    }
+    return a;
+  }
+  function atom() {
+    const c = src[i];
+    if (c === '(') {
+      i++;
+      if (src[i] === '?') { if (src[i + 1] === ':') i += 2; else throw new Unmodelled('regex group (?' + src[i + 1]); }
+      const r = alt();
+      if (src[i] !== ')') throw new Unmodelled('regex: unbalanced group');
+      i++;
+      return r;
+    }
+    if (c === '[') {
+      i++;
+      let neg = false;
+      if (src[i] === '^') { neg = true; i++; }
+      const parts = [];
+      while (src[i] !== ']') {
+        let a;
+        if (src[i] === '\\') { i++; const e = src[i++]; if ('dwsDWS'.includes(e)) { parts.push(cls(e)); continue; } a = e === 'n' ? '\n' : e === 't' ? '\t' : e === 'r' ? '\r' : e; } else a = src[i++];
+        if (src[i] === '-' && src[i + 1] !== ']') { i++; let b = src[i++]; if (b === '\\') b = src[i++]; parts.push(range(a, b)); } else parts.push(`(str.to_re ${smtStr(a)})`);
+      }
+      i++;
+      const u = parts.length === 1 ? parts[0] : `(re.union ${parts.join(' ')})`;
+      return neg ? `(re.diff ${ANYCH} ${u})` : u;
+    }
+    if (c === '.') { i++; return `(re.diff ${ANYCH} (re.union (str.to_re ${smtStr('\n')}) (str.to_re ${smtStr('\r')})))`; }
+    if (c === '\\') { i++; return cls(src[i++]); }
+    if (c === '^' || c === '$') throw new Unmodelled('regex anchor inside pattern');
+    i++;
+    return `(str.to_re ${smtStr(c)})`;
+  }
+  let startAnch = false, endAnch = false;
+  if (src[0] === '^') { startAnch = true; i = 1; }
+  let body = src;
+  let end = src.length;
+  if (src.endsWith('$') && !src.endsWith('\\$')) { endAnch = true; end = src.length - 1; }
+  const saved = src;
+  // parse on the slice [i, end)
+  const inner = (() => { const sub = saved.slice(i, end); const sv = { src: sub }; return sub; })();
+  const r = regexToSmtInner(inner);
+  return `(re.++ ${startAnch ? '(str.to_re "")' : ALL} ${r} ${endAnch ? '(str.to_re "")' : ALL})`;
+}
+function regexToSmtInner(sub) {
+  // re-enter the parser on a pattern without outer anchors
+  const re2 = new RegExp(sub.length ? sub : '(?:)');
+  return regexBody(re2.source === '(?:)' ? '' : sub);
+}
+function regexBody(src) {
+  // a self-contained copy of the recursive-descent parser of regexToSmt over `src`
+  let i = 0;
+  const ANYCH = 're.allchar';
+  const range = (a, b) => `(re.range ${smtStr(a)} ${smtStr(b)})`;
+  const DIGIT = range('0', '9');
+  const WORD = `(re.union ${range('a', 'z')} ${range('A', 'Z')} ${DIGIT} (str.to_re "_"))`;
+  const SPACE = `(re.union (str.to_re " ") (str.to_re ${smtStr('\t')}) (str.to_re ${smtStr('\n')}) (str.to_re ${smtStr('\r')}))`;
+  const cls = (ch) => {
+    switch (ch) {
+      case 'd': return DIGIT; case 'w': return WORD; case 's': return SPACE;
+      case 'D': return `(re.diff ${ANYCH} ${DIGIT})`; case 'W': return `(re.diff ${ANYCH} ${WORD})`; case 'S': return `(re.diff ${ANYCH} ${SPACE})`;
+      case 'n': return `(str.to_re ${smtStr('\n')})`; case 't': return `(str.to_re ${smtStr('\t')})`; case 'r': return `(str.to_re ${smtStr('\r')})`;
+      default: if (/[a-zA-Z0-9]/.test(ch)) throw new Unmodelled('regex escape \\' + ch); return `(str.to_re ${smtStr(ch)})`;
+    }
+  };
+  const alt = () => { const parts = [seq()]; while (src[i] === '|') { i++; parts.push(seq()); } return parts.length === 1 ? parts[0] : `(re.union ${parts.join(' ')})`; };
+  const seq = () => { const items = []; while (i < src.length && src[i] !== '|' && src[i] !== ')') items.push(quant()); if (items.length === 0) return '(str.to_re "")'; return items.length === 1 ? items[0] : `(re.++ ${items.join(' ')})`; };
+  const quant = () => {
+    let a = atom();
+    for (;;) {
+      const c = src[i];
+      if (c === '*') { a = `(re.* ${a})`; i++; } else if (c === '+') { a = `(re.+ ${a})`; i++; } else if (c === '?') { a = `(re.opt ${a})`; i++; } else if (c === '{') {
+        const m = /^\{(\d+)(,(\d*))?\}/.exec(src.slice(i));
+        if (!m) throw new Unmodelled('regex quantifier');
+        i += m[0].length;
+        const lo = Number(m[1]);
+        if (m[2] === undefined) a = `((_ re.loop ${lo} ${lo}) ${a})`;
+        else if (m[3] === '') a = `(re.++ ((_ re.loop ${lo} ${lo}) ${a}) (re.* ${a}))`;
+        else a = `((_ re.loop ${lo} ${Number(m[3])}) ${a})`;
+      } else break;
+    }
+    return a;
+  };
+  const atom = () => {
+    const c = src[i];
+    if (c === '(') {
+      i++;
+      if (src[i] === '?') { if (src[i + 1] === ':') i += 2; else throw new Unmodelled('regex group (?' + src[i + 1]); }
+      const r = alt();
+      if (src[i] !== ')') throw new Unmodelled('regex: unbalanced group');
+      i++;
+      return r;
+    }
+    if (c === '[') {
+      i++;
+      let neg = false;
+      if (src[i] === '^') { neg = true; i++; }
+      const parts = [];
+      while (src[i] !== ']') {
+        let a;
+        if (src[i] === '\\') { i++; const e = src[i++]; if ('dwsDWS'.includes(e)) { parts.push(cls(e)); continue; } a = e === 'n' ? '\n' : e === 't' ? '\t' : e === 'r' ? '\r' : e; } else a = src[i++];
+        if (src[i] === '-' && src[i + 1] !== ']') { i++; let b = src[i++]; if (b === '\\') b = src[i++]; parts.push(range(a, b)); } else parts.push(`(str.to_re ${smtStr(a)})`);
+      }
+      i++;
+      const u = parts.length === 1 ? parts[0] : `(re.union ${parts.join(' ')})`;
+      return neg ? `(re.diff ${ANYCH} ${u})` : u;
+    }
+    if (c === '.') { i++; return `(re.diff ${ANYCH} (re.union (str.to_re ${smtStr('\n')}) (str.to_re ${smtStr('\r')})))`; }
+    if (c === '\\') { i++; return cls(src[i++]); }
+    if (c === '^' || c === '$') throw new Unmodelled('regex anchor inside pattern');
+    i++;
+    return `(str.to_re ${smtStr(c)})`;
+  };
+  const r = alt();
+  if (i !== src.length) throw new Unmodelled('regex: trailing input');
+  return r;
+}
+
+// ---- shapes: building the input value from the refinement decisions taken so far
+const KIND_TABLE = {
+  undefined: () => undefined, null: () => null, true: () => true, false: () => false,
+  number: (p) => { const b = new SymNumV(p); st.boxes.set(p, b); return b; }, string: (p) => { const b = new SymStrV(p); st.boxes.set(p, b); return b; }, bigint: () => 7n,
+  date: () => new Date(86400000), invaliddate: () => new Date(NaN), function: () => function f() {},
+  u8array: () => Uint8Array.of(1, 2), f64array: () => Float64Array.of(1.5), map0: () => new Map(), set0: () => new Set(),
+  symbol: () => Symbol('s'),
+};
+function depthOf(path) { return (path.match(/[.\[<]/g) || []).length; }
+function kindsAt(path) {
+  const m = /\.([^.\[<]+)$/.exec(path);
+  if (m && st.extraKeys.includes(m[1])) return st.extraKinds;       // the value under an undeclared key: its kind rarely matters
+  const d = depthOf(path);
+  return d >= st.maxDepth ? st.leafKinds : d >= 1 ? st.midKinds : st.kinds;
+}
+function buildValue(path) {
+  const choice = st.shape.get(path);
+  if (choice === undefined) return makeWildcard(path);
+  const kind = kindsAt(path)[choice];
+  if (kind in KIND_TABLE) return KIND_TABLE[kind](path);
+  let m;
+  if ((m = /^array(\d+)$/.exec(kind))) { const n = Number(m[1]); const a = []; for (let i = 0; i < n; i++) a.push(buildValue(`${path}[${i}]`)); return a; }
+  if (kind === 'object') return makeLazyObject(path);
+  if (kind === 'map1') { const mm = new Map(); mm.set(buildValue(path + '<k>'), buildValue(path + '<v>')); return mm; }
+  if (kind === 'set1') { const ss = new Set(); ss.add(buildValue(path + '<e>')); return ss; }
+  throw new Error('kind ' + kind);
+}
+function makeWildcard(path) {
+  const refuse = () => { throw new NeedsRefinement(path, kindsAt(path).length); };
+  const w = new Proxy(function wildcard() {}, {
+    // JSON.stringify of a value that was never inspected is an opaque token (it only feeds messages / de-duplication keys)
+    get: (t, k) => { if (k === WILDCARD) return path; if (k === 'toJSON') return () => `\u27e8any:${path}\u27e9`; refuse(); }, set: refuse, has: refuse, ownKeys: refuse, getOwnPropertyDescriptor: refuse,
+    getPrototypeOf: refuse, apply: refuse, construct: refuse, defineProperty: refuse, deleteProperty: refuse, isExtensible: refuse, preventExtensions: refuse, setPrototypeOf: refuse,
+  });
+  wildcards.add(w);
+  return w;
+}
+function makeLazyObject(path) {
+  const target = {};
+  const state = (k) => st.shape.get(`${path}.has(${JSON.stringify(k)})`);
+  const pool = st.keysAt ? st.keysAt(path) : st.keyPool;
+  const ensure = (k) => {
+    if (typeof k !== 'string' || !pool.includes(k)) return false;      // keys outside the pool are absent
+    if (Object.prototype.hasOwnProperty.call(target, k)) return true;
+    const s = state(k);
+    if (s === undefined) throw new NeedsRefinement(`${path}.has(${JSON.stringify(k)})`, 2);
+    if (s === 1) { Object.defineProperty(target, k, { value: buildValue(`${path}.${k}`), enumerable: true, writable: true, configurable: true }); return true; }
+    return false;
+  };
+  const all = () => { for (const k of pool) ensure(k); };
+  const mut = () => { st.mutated = true; throw new Mutation('input object mutated'); };
+  const p = new Proxy(target, {
+    get: (t, k, r) => { if (k === LAZYOBJ) return path; if (k === 'toJSON' && !pool.includes('toJSON')) return () => `\u27e8object:${path}\u27e9`; ensure(k); return Reflect.get(t, k); },
+    has: (t, k) => { ensure(k); return Reflect.has(t, k); },
+    ownKeys: (t) => { all(); return Reflect.ownKeys(t); },
+    getOwnPropertyDescriptor: (t, k) => { ensure(k); return Reflect.getOwnPropertyDescriptor(t, k); },
+    set: mut, defineProperty: mut, deleteProperty: mut, setPrototypeOf: mut,
+  });
+  lazyObjs.set(p, { path, target });
+  return p;
+}
+
+Object.assign($S, {
+  NeedsRefinement, Mutation, SymNumV, SymStrV, isBox, isWildcard, getModel, regexToSmt,
+  // explore(body, {kinds, keyPool, maxPaths}): runs body(input) for every feasible refinement / decision sequence
+  explore(body, opts) {
+    st.kinds = opts.kinds;
+    st.leafKinds = opts.leafKinds || opts.kinds;
+    st.midKinds = opts.midKinds || opts.kinds;
+    st.maxDepth = opts.maxDepth === undefined ? 3 : opts.maxDepth;
+    st.keyPool = opts.keyPool;
+    st.keysAt = opts.keysAt || null;
+    st.extraKeys = opts.extraKeys || [];
+    st.extraKinds = opts.extraKinds || ['number'];
+    st.qcache = new Map();
+    st.stack = [{ shape: new Map(), prefix: [] }];
+    const results = { paths: 0, infeasible: 0, refinements: 0, unmodelled: [], errors: [], violations: [] };
+    const maxPaths = opts.maxPaths || 20000;
+    while (st.stack.length) {
+      if (results.paths + results.refinements > maxPaths) { results.bound_hit = true; break; }
+      const item = st.stack.pop();
+      st.shape = item.shape; st.prefix = item.prefix; st.decisions = []; st.pos = 0; st.pc = []; st.decls = new Map(); st.mutated = false; boxCounter = 0; st.boxes = new Map();
+      try {
+        const input = buildValue('$');
+        const v = body(input, { shape: st.shape });
+        results.paths++;
+        if (v && v.length) {
+          // one witness per class of violation (solving for a model costs a solver process)
+          let model, concrete;
+          for (const x of v) {
+            const cls = x.prop + ':' + String(x.what).replace(/\d+/g, 'N').replace(/\(\{.*?\}\)$/, '').slice(0, 60);
+            results.classes = results.classes || {};
+            results.classes[cls] = (results.classes[cls] || 0) + 1;
+            if (results.classes[cls] > 3) continue;
+            if (model === undefined) { model = getModel(); concrete = $S.concretise(model); }
+            results.violations.push(Object.assign({ decisions: st.decisions.slice(), model, concrete }, x));
+          }
+        }
+      } catch (e) {
+        if (e instanceof NeedsRefinement) {
+          results.refinements++;
+          for (let k = e.options - 1; k >= 0; k--) { const sh = new Map(st.shape); sh.set(e.path, k); st.stack.push({ shape: sh, prefix: st.decisions.slice() }); }
+        } else if (e instanceof Infeasible) results.infeasible++;
+        else if (e instanceof Unmodelled) { results.unmodelled.push(e.message); if (process.env.DSE_DEBUG) results.unmodelled_stack = String(e.stack).split('\n').slice(0, 8); results.paths++; }
+        else { results.errors.push({ message: String(e && e.stack || e).slice(0, 600), shape: [...st.shape.entries()] }); results.paths++; }
+      }
+    }
+    results.stats = st.stats;
+    return results;
+  },
+  concretise(model) {           // tagged-JSON description of the concrete input of the current path under a model (for replays)
+    model = model || {};
+    const boxId = (p) => { const b = st.boxes.get(p); return b ? b.id : undefined; };
+    const conc = (path) => {
+      const choice = st.shape.get(path);
+      if (choice === undefined) return { $: 'any' };
+      const kind = kindsAt(path)[choice];
+      let m;
+      switch (kind) {
+        case 'undefined': return { $: 'undefined' };
+        case 'null': return null;
+        case 'true': return true;
+        case 'false': return false;
+        case 'number': { const v = model['n' + boxId(path)]; return v === undefined ? 0 : (Number.isFinite(v) ? v : { $: 'number', v: String(v) }); }
+        case 'string': { const v = model['s' + boxId(path)]; return v === undefined ? '' : v; }
+        case 'object': { const props = {}; for (const k of (st.keysAt ? st.keysAt(path) : st.keyPool)) if (st.shape.get(`${path}.has(${JSON.stringify(k)})`) === 1) Object.defineProperty(props, k, { value: conc(`${path}.${k}`), enumerable: true, writable: true, configurable: true }); return { $: 'object', props }; }
+        case 'map1': return { $: 'map', entries: [[conc(path + '<k>'), conc(path + '<v>')]] };
+        case 'set1': return { $: 'set', items: [conc(path + '<e>')] };
+        default:
+          if ((m = /^array(\d+)$/.exec(kind))) { const a = []; for (let i = 0; i < Number(m[1]); i++) a.push(conc(`${path}[${i}]`)); return a; }
+          return { $: kind };
+      }
+    };
+    return conc('$');
+  },
+  decode(j) {
+    if (j === null || typeof j !== 'object') return j;
+    if (Array.isArray(j)) return j.map((x) => $S.decode(x));
+    switch (j.$) {
+      case 'any': case 'null': return null;
+      case 'undefined': return undefined;
+      case 'number': return Number(j.v);
+      case 'object': { const o = {}; for (const k of Object.keys(j.props)) Object.defineProperty(o, k, { value: $S.decode(j.props[k]), enumerable: true, writable: true, configurable: true }); return o; }
+      case 'map': return new Map(j.entries.map(([k, v]) => [$S.decode(k), $S.decode(v)]));
+      case 'set': return new Set(j.items.map((x) => $S.decode(x)));
+      case 'map0': return new Map(); case 'set0': return new Set();
+      case 'bigint': return 7n;
+      case 'date': return new Date(86400000); case 'invaliddate': return new Date(NaN);
+      case 'function': return function f() {};
+      case 'u8array': return Uint8Array.of(1, 2); case 'f64array': return Float64Array.of(1.5);
+      case 'symbol': return Symbol('s');
+      default: throw new Error('decode ' + JSON.stringify(j));
+    }
+  },
+});
+
+// ---- hooks for boxes / wildcards (wrapped around the numeric hooks defined above)
+const base = { bin: $S.bin, un: $S.un, truthy: $S.truthy, get: $S.get, set: $S.set, call: $S.call, mcall: $S.mcall, tpl: $S.tpl, sw: $S.sw, nullish: $S.nullish };
+function touched(...xs) { for (const x of xs) if (isWildcard(x)) { x[Symbol.iterator]; } }     // reading any property refines
+function needsValueHook(x) { return isBox(x) || isWildcard(x); }
+function placeholder(x) { return x.toJSON(); }
+
+$S.bin = function (op, a, b) {
+  if (!needsValueHook(a) && !needsValueHook(b)) return base.bin(op, a, b);
+  if (isWildcard(a) && a === b && (op === '===' || op === '==')) return true;
+  touched(a, b);
+  switch (op) {
+    case '===': case '==': case '!==': case '!=': {
+      let f = eqFormula(a, b);
+      if (f === null && (op === '==' || op === '!=')) {
+        // loose equality of a boxed primitive with a non-primitive / other kind: only number<->string coercions could matter
+        if ((isBox(a) && (b === null || b === undefined || typeof b === 'object' && !isBox(b))) || (isBox(b) && (a === null || a === undefined || typeof a === 'object' && !isBox(a)))) f = null;
+        else if (isBox(a) !== isBox(b) || a.constructor !== b.constructor) {
+          const o = isBox(a) ? b : a;
+          if (typeof o === 'boolean' || typeof o === 'number' || typeof o === 'string' || typeof o === 'bigint') {
+            if ((isBox(a) ? a : b) instanceof SymNumV && typeof o === 'number') f = eqFormula(a, b); else throw new Unmodelled('loose equality with coercion on a symbolic value');
+          }
+        }
+      }
+      const r = forkBool(f);
+      return op[0] === '!' ? !r : r;
+    }
+    case 'instanceof': return false;
+    case 'in': if (isBox(b)) throw new TypeError("Cannot use 'in' operator to search in a primitive"); throw new Unmodelled('in with symbolic key');
+    case '+': if (typeof a === 'string' || typeof b === 'string' || a instanceof SymStrV || b instanceof SymStrV) return (isBox(a) ? placeholder(a) : String(a)) + (isBox(b) ? placeholder(b) : String(b));
+    // fallthrough
+    default: throw new Unmodelled(`operator ${op} on a symbolic value`);
+  }
+};
+$S.un = function (op, a) {
+  if (!needsValueHook(a)) return base.un(op, a);
+  touched(a);
+  if (op === 'typeof') return a instanceof SymNumV ? 'number' : 'string';
+  if (op === '!') return !$S.truthy(a);
+  if (op === 'void') return undefined;
+  throw new Unmodelled(`unary ${op} on a symbolic value`);
+};
+$S.truthy = function (x) {
+  if (!needsValueHook(x)) return base.truthy(x);
+  touched(x);
+  if (x instanceof SymStrV) { declStr(x); return forkBool(`(not (= s${x.id} ""))`); }
+  declNum(x);
+  return forkBool(`(or (= c${x.id} 2) (= c${x.id} 3) (and (= c${x.id} 0) (not (= n${x.id} 0.0))))`);
+};
+$S.nullish = function (a, thunk) { if (isWildcard(a)) touched(a); return a === null || a === undefined ? thunk() : a; };
+// ToPropertyKey of an array with a single (possibly nested) boxed element is that element
+function toKey(k) { let g = 0; while (Array.isArray(k) && k.length === 1 && g++ < 5) { if (isWildcard(k[0])) touched(k[0]); k = k[0]; } return k; }
+function arrayWithBox(k) { return Array.isArray(k) && k.length > 0 && k.some((x) => isBox(x) || isWildcard(x) || arrayWithBox(x)); }
+$S.get = function (o, k) {
+  if (arrayWithBox(k)) { const kk = toKey(k); if (arrayWithBox(kk)) throw new Unmodelled('array with several symbolic elements used as property key'); k = kk; }
+  if (isWildcard(o)) touched(o);
+  if (isWildcard(k)) touched(k);
+  if (isBox(o)) throw new Unmodelled('property read on a symbolic primitive');
+  if (k instanceof SymNumV) {
+    // a number used as property key is its decimal string: no effect unless the object has numeric-looking keys
+    if (o === null || o === undefined) return o[k];
+    if (Array.isArray(o) || ArrayBuffer.isView(o) || Object.getOwnPropertyNames(o).some((n) => /^-?\d|^NaN$|^-?Infinity$/.test(n))) throw new Unmodelled('symbolic numeric key on an object with numeric keys');
+    return undefined;
+  }
+  if (k instanceof SymStrV) {
+    // fork over the keys that can make a difference: own enumerable + prototype chain properties, else "any other string"
+    if (o === null || o === undefined) return o[k];
+    const cands = new Set();
+    for (let p = o; p !== null && p !== undefined; p = Object.getPrototypeOf(p)) {
+      // own names individually; inherited names by representatives of their classes (constructor, a plain method, __proto__)
+      if (p === o) for (const n of Object.getOwnPropertyNames(p)) cands.add(n);
+      else for (const n of Object.getOwnPropertyNames(p)) if (n === 'constructor' || n === 'toString' || n === '__proto__' || !(n in Object.prototype)) cands.add(n);
+    }
+    const list = [...cands];
+    declStr(k);
+    const idx = decide(list.map((n) => `(= s${k.id} ${smtStr(n)})`).concat([list.length ? `(and ${list.map((n) => `(not (= s${k.id} ${smtStr(n)}))`).join(' ')})` : 'true']));
+    return idx < list.length ? o[list[idx]] : undefined;
+  }
+  return base.get(o, k);
+};
+$S.set = function (o, k, v) {
+  if (isWildcard(o)) touched(o);
+  if (isBox(k)) {
+    if (k instanceof SymStrV) { o[placeholder(k)] = v; return v; }   // result objects keyed by a symbolic string (index signatures)
+    throw new Unmodelled('symbolic key in assignment');
+  }
+  if (isWildcard(k)) touched(k);
+  if (k === '__proto__' && (isBox(v) || isWildcard(v))) {
+    // assigning a primitive to __proto__ through the inherited setter is a no-op; a boxed symbolic primitive must not become the prototype
+    if (isWildcard(v)) touched(v);
+    if (isBox(v) && !Object.prototype.hasOwnProperty.call(o, '__proto__')) return v;
+  }
+  return base.set(o, k, v);
+};
+$S.sw = function (d, cases) {
+  if (!needsValueHook(d)) return base.sw(d, cases);
+  touched(d);
+  const fs = cases.map((c) => eqFormula(d, c) || 'false');
+  const idx = decide(fs.concat([`(and ${fs.map((f) => `(not ${f})`).join(' ')} true)`]));
+  return idx < cases.length ? cases[idx] : Symbol('no-case');
+};
+$S.tpl = function (quasis, exprs) {
+  if (!exprs.some(needsValueHook)) return base.tpl(quasis, exprs);
+  exprs.forEach((e) => touched(e));
+  let s = quasis[0];
+  for (let i = 0; i < exprs.length; i++) s += (isBox(exprs[i]) ? placeholder(exprs[i]) : String(exprs[i])) + quasis[i + 1];
+  return s;
+};
+function includesModel(arr, x, strict) {
+  for (const el of arr) {
+    if (el === x) return true;
+    let f = eqFormula(x, el);
+    if (!strict && x instanceof SymNumV && typeof el === 'number' && Number.isNaN(el)) { declNum(x); f = `(= c${x.id} 1)`; }   // SameValueZero
+    if (f !== null && forkBool(f)) return true;
+  }
+  return false;
+}
+$S.call = function (f, args) {
+  if (!args.some(needsValueHook)) return base.call(f, args);
+  if (!isNative(f)) return f(...args);
+  args.forEach((a) => touched(a));
+  if (f === String) return placeholder(args[0]);
+  if (f === Boolean) return $S.truthy(args[0]);
+  if (f === isNaN || f === Number.isNaN) { if (args[0] instanceof SymNumV) { declNum(args[0]); return forkBool(`(= c${args[0].id} 1)`); } if (f === Number.isNaN) return false; }
+  throw new Unmodelled('native function ' + (f.name || '?') + ' on a symbolic value');
+};
+$S.mcall = function (o, m, args) {
+  if (o === Object.prototype.hasOwnProperty && m === 'call' && arrayWithBox(args[1])) { const kk = toKey(args[1]); if (arrayWithBox(kk)) throw new Unmodelled('array with several symbolic elements used as property key'); args = [args[0], kk]; }
+  const hot = needsValueHook(o) || args.some(needsValueHook);
+  if (!hot) return base.mcall(o, m, args);
+  if (isWildcard(o)) touched(o);
+  if (isBox(o)) {
+    if (o instanceof SymStrV && (m === 'toString' || m === 'valueOf')) return o;
+    throw new Unmodelled(`method ${String(m)} on a symbolic primitive`);
+  }
+  const f = o === null || o === undefined ? undefined : o[m];
+  if (typeof f === 'function' && !isNative(f)) return f.apply(o, args);          // user code: symbolic values flow through
+  // native callee with symbolic arguments
+  if ((Array.isArray(o) && (m === 'push' || m === 'unshift' || m === 'concat')) || (o instanceof Map && m === 'set') || (o instanceof Set && m === 'add')) return f.apply(o, args);   // containers just store
+  args.forEach((a) => touched(a));
+  if (o === Array && m === 'isArray') return Array.isArray(args[0]);
+  if (o === ArrayBuffer && m === 'isView') return false;
+  if (o === Object && m === 'is') { const [a, b] = args; if (isBox(a) && isBox(b) && a === b) return true; const fm = eqFormula(a, b); return forkBool(fm); }
+  if (o === Object && (m === 'keys' || m === 'entries' || m === 'values' || m === 'getPrototypeOf' || m === 'getOwnPropertyNames')) { if (isBox(args[0])) return m === 'getPrototypeOf' ? (args[0] instanceof SymNumV ? Number.prototype : String.prototype) : []; }
+  if (o === Number && (m === 'isNaN' || m === 'isFinite' || m === 'isInteger' || m === 'isSafeInteger')) {
+    const x = args[0];
+    if (!(x instanceof SymNumV)) return false;
+    declNum(x);
+    if (m === 'isNaN') return forkBool(`(= c${x.id} 1)`);
+    if (m === 'isFinite') return forkBool(`(= c${x.id} 0)`);
+    return forkBool(`(and (= c${x.id} 0) (is_int n${x.id})${m === 'isSafeInteger' ? ` (<= n${x.id} 9007199254740991.0) (>= n${x.id} (- 9007199254740991.0))` : ''})`);
+  }
+  if (o === JSON && m === 'stringify') {
+    const x = args[0];
+    if (isBox(x)) return JSON.stringify(placeholder(x));
+    return JSON.stringify(...args);
+  }
+  if (o instanceof RegExp && m === 'test') {
+    const x = args[0];
+    if (x instanceof SymStrV) { declStr(x); return forkBool(`(str.in_re s${x.id} ${regexToSmt(o)})`); }
+    if (x instanceof SymNumV) throw new Unmodelled('regex test on a symbolic number');
+  }
+  if (Array.isArray(o) && (m === 'includes' || m === 'indexOf')) {
+    const x = args[0];
+    if (m === 'includes') return includesModel(o, x, false);
+    for (let i = 0; i < o.length; i++) { if (o[i] === x) return i; const fm = eqFormula(x, o[i]); if (fm !== null && forkBool(fm)) return i; }
+    return -1;
+  }
+  if ((o instanceof Set || o instanceof Map) && (m === 'has' || m === 'get')) {
+    const x = args[0];
+    for (const el of o.keys()) { if (el === x || (eqFormula(x, el) !== null && forkBool(eqFormula(x, el)))) return m === 'has' ? true : o.get(el); }
+    return m === 'has' ? false : undefined;
+  }
+  if (typeof f === 'function' && (f === Function.prototype.call || f === Function.prototype.apply) && typeof o === 'function') {
+    // hasOwnProperty.call(obj, symKey) and friends
+    if (o === Object.prototype.hasOwnProperty) {
+      const [obj, key] = m === 'call' ? args : [args[0], (args[1] || [])[0]];
+      if (key instanceof SymNumV) { if (Object.getOwnPropertyNames(obj).some((n) => /^-?\d|^NaN$|^-?Infinity$/.test(n))) throw new Unmodelled('symbolic numeric key on an object with numeric keys'); return false; }
+      if (key instanceof SymStrV) { const names = Object.getOwnPropertyNames(obj); declStr(key); const idx = decide(names.map((n) => `(= s${key.id} ${smtStr(n)})`).concat([`(and ${names.map((n) => `(not (= s${key.id} ${smtStr(n)}))`).join(' ')} true)`])); return idx < names.length; }
+    }
+    if (!isNative(o)) return f.apply(o, args);
+  }
+  throw new Unmodelled(`native ${o && o.constructor ? o.constructor.name : typeof o}.${String(m)} on a symbolic value`);
+};
